@@ -53,8 +53,6 @@ type Object struct {
 type iterNextFunc func() (propIterItem, iterNextFunc)
 
 type PropertyDescriptor struct {
-	jsDescriptor *Object
-
 	Value Value
 
 	Writable, Configurable, Enumerable Flag
@@ -80,10 +78,6 @@ func (p *PropertyDescriptor) IsGeneric() bool {
 }
 
 func (p *PropertyDescriptor) toValue(r *Runtime) Value {
-	if p.jsDescriptor != nil {
-		// a PropertyDescriptor is a Go value and can be carried over to another Runtime by the host
-		return r.ToValue(p.jsDescriptor)
-	}
 	if p.Empty() {
 		return _undefined
 	}
